@@ -376,6 +376,17 @@ fn run(ctx: &mut Ctx) {
             }
         }
     }
+    // recursive-type family (shared with C07, which also executes them): generic types that contain their own instance
+    // behind Vec / Ref / tuple / array / function / generic enum / generic struct, mutual recursion, swapped parameters:
+    // every pass (type monomorphisation in particular) must terminate on them
+    for (i, (name, src, _)) in crate::props::c07::recursive_type_programs().into_iter().enumerate() {
+        if ctx.mine(310_000 + i as u64) {
+            ctx.case(&format!("recursive-types/{}", name), |c| {
+                check_source(c, "recursive_types", &src);
+                c.sample(json!({"workload":"recursive_types","input":src}));
+            });
+        }
+    }
     // generic-signature family: the type parameter in every type-constructor position of a parameter and of a
     // result (tuple left / right / nested, Vec, array, Ref, function argument / result, generic struct, generic enum,
     // compositions), each instantiated at six types: instantiation must answer, not crash
@@ -428,7 +439,7 @@ fn run(ctx: &mut Ctx) {
     // generated well-typed programs (all features) and programs over the generic library of C07
     {
         use crate::gl::ast::{PrintOpts, print_program};
-        let ngen = tier.pick(60u64, 6_000u64) / ctx.nshards as u64 + 1;
+        let ngen = tier.pickn(60u64, 6_000u64) / ctx.nshards as u64 + 1;
         for i in 0..ngen {
             let mut rng = Rng::keyed(seed, "c04-gen", ctx.shard as u64, i);
             let src = if i % 3 == 0 {
@@ -446,7 +457,7 @@ fn run(ctx: &mut Ctx) {
     // multi-line string syntax: soups of marker / continuation / lone-backslash pieces, and every prefix of the corpus
     // files that contain a multi-line string (what an editor hands over while the literal is being typed)
     {
-        let nml = tier.pick(1_500u64, 60_000u64) / ctx.nshards as u64 + 1;
+        let nml = tier.pickn(1_500u64, 60_000u64) / ctx.nshards as u64 + 1;
         for i in 0..nml {
             let mut rng = Rng::keyed(seed, "c04-ml", ctx.shard as u64, i);
             let n = 1 + rng.below(8);
@@ -509,7 +520,7 @@ fn run(ctx: &mut Ctx) {
         }
     }
     // 2. mutations of corpus + targeted (seeded)
-    let per_shard = tier.pick(9_000u64, 3_000_000u64) / ctx.nshards as u64 + 1;
+    let per_shard = tier.pickn(9_000u64, 3_000_000u64) / ctx.nshards as u64 + 1;
     let mut pool: Vec<&str> = corpus.iter().map(|(_, t)| t.as_str()).filter(|t| t.len() < 6_000).collect();
     // seeds whose descendants mostly re-trigger the recorded non-termination finding stay out of the mutation pool
     pool.extend(TARGETED.iter().copied().filter(|t| !t.contains("f((x, x)")));
